@@ -86,10 +86,11 @@ STEP_CLAUSE = {
 # variable, an existing one in every position, temporary variables lowered or cloned, holes in the per-name stack, read-only
 # entries inside and outside the scope; thorough: all 211 (step, shape, occupancy) arms
 QUICK = set("""
-assign_rr_m1 assign_rr_m3 assign_rv_m1 assign_rv_m2 assign_rv_m3 assign_rrv_m3 assign_rvr_m2 assign_rvr_m7 assign_rvv_m6
-unset_rr_m2 unset_rv_m3 unset_rrr_m1 unset_rrv_m5
-pop_rr_m3 pop_rv_m2 pop_rvr_m7
-lookup_rr_m3 lookup_rvr_m5 attrs_rv_m1 push_r_m1
+assign_rr_m1 assign_rr_m2 assign_rr_m3 assign_rv_m1 assign_rv_m2 assign_rv_m3 assign_rrv_m3 assign_rrv_m5 assign_rrv_m7
+assign_rvr_m2 assign_rvr_m7 assign_rvv_m6 assign_rvv_m7
+unset_rr_m1 unset_rr_m2 unset_rv_m1 unset_rv_m3 unset_rrr_m1 unset_rrv_m5 unset_rvr_m5 unset_rvv_m6
+pop_rr_m3 pop_rv_m2 pop_rv_m3 pop_rrv_m5 pop_rvr_m7
+lookup_rr_m3 lookup_rv_m1 lookup_rvr_m5 attrs_rr_m3 attrs_rv_m1 push_r_m1
 """.split())
 
 
